@@ -10,6 +10,7 @@ import (
 	"sync"
 
 	"github.com/TheManticoreProject/Manticore/network/smb/smb_v10/message"
+	"github.com/TheManticoreProject/Manticore/network/smb/smb_v10/message/commands/andx"
 	"github.com/TheManticoreProject/Manticore/network/smb/smb_v10/message/commands/codes"
 	"github.com/TheManticoreProject/Manticore/network/smb/smb_v10/message/header"
 	"github.com/TheManticoreProject/Manticore/network/smb/smb_v10/message/header/flags"
@@ -191,6 +192,19 @@ func checkHeader(h refHeader, variant int, tag string) {
 			r.Violation("header.SetPID:value", fmt.Sprintf("SetPID(%#x) -> high %#x low %#x", pid, lh3.PIDHigh, lh3.PIDLow), cs)
 		}
 		r.Eval(2)
+		// Flags is declared wider than its one octet on the wire: whatever sits above bit 7 has no
+		// place in the header and must not reach any other field's octets
+		lh5 := libHeader(h, variant)
+		lh5.Flags |= flags.Flags(0xA500)
+		g5, err5 := lh5.Marshal()
+		r.Eval(1)
+		if err5 == nil && !bytes.Equal(g5, want) {
+			off := 0
+			for off < len(g5) && off < len(want) && g5[off] == want[off] {
+				off++
+			}
+			r.Violation("header.Marshal:flags-high-bits-leak", fmt.Sprintf("with bits above the wire octet set in Header.Flags (%#04x) the header differs at offset %d: got %x want %x", uint16(lh5.Flags), off, g5, want), cs)
+		}
 		// the other accessors: a header assigned through the setters encodes to the same bytes,
 		// the getters of the decoded header give the decoded fields
 		lh4 := libHeader(refHeader{Command: h.Command, Status: h.Status, PIDHigh: ^h.PIDHigh, Sec: h.Sec, Reserved: h.Reserved, TID: ^h.TID, PIDLow: ^h.PIDLow, UID: ^h.UID, MID: ^h.MID}, variant)
@@ -603,6 +617,43 @@ func chained(structs []smbgen.Struct) {
 			if !p && err == nil && m2.Command != nil {
 				if got := reflect.TypeOf(m2.Command).Elem().Name(); got != a.Name {
 					r.Violation("chain:decode:wrong-type", fmt.Sprintf("a message holding %s followed by %s decodes as %s", a.Name, b.Name, got), cs)
+				}
+			}
+			// the same as bytes a peer would send: first block naming the second (AndXCommand,
+			// AndXOffset), then the second block. Whether or not the decoder follows the chain,
+			// Message.Command is the structure the header designates: the first one.
+			ca2 := a.New()
+			smbgen.Fill(ca2, smbgen.Relations(a.Name), r.Rand(fmt.Sprintf("chain|%s|%d", a.Name, j)), smbgen.ModeOne, 6)
+			var first, second []byte
+			pb, _, _ := mon.Guard(func() { second, err = cb.Marshal() })
+			if !pb && err == nil {
+				probe, e0, _ := func() ([]byte, error, bool) { b0, e := ca.Marshal(); return b0, e, true }()
+				if e0 == nil {
+					x := andx.NewAndX()
+					x.AndXCommand, x.AndXOffset = codes.CommandCode(b.Code), uint16(32+len(probe))
+					ca2.SetAndX(x)
+					smbgen.AlignPads(ca2, smbgen.Relations(a.Name))
+					pf, _, _ := mon.Guard(func() { first, err = ca2.Marshal() })
+					if !pf && err == nil && len(first) == len(probe) {
+						hd := refHeader{Command: a.Code, MID: 3}
+						if a.Response {
+							hd.Flags = 0x80
+						}
+						w2 := append(append(hd.encode(), first...), second...)
+						m3 := message.NewMessage()
+						p3, pv3, st3 := mon.Guard(func() { err = m3.Unmarshal(w2) })
+						r.Eval(1)
+						cs2 := map[string]any{"first": a.Name, "second": b.Name, "wire": mon.FullHex(w2)}
+						switch {
+						case p3:
+							r.Violation("chain:decode:panic", fmt.Sprintf("%v at %s", pv3, mon.TopLibFrame(st3)), cs2)
+						case err != nil || m3.Command == nil:
+							r.Count("chained_wire_messages_refused", 1)
+						case reflect.TypeOf(m3.Command).Elem().Name() != a.Name:
+							r.Violation("chain:decode:wrong-type", fmt.Sprintf("bytes holding %s followed by %s (linked through the AndX block) decode with Message.Command = %s", a.Name, b.Name, reflect.TypeOf(m3.Command).Elem().Name()), cs2)
+						}
+						r.Count("chained_wire_messages", 1)
+					}
 				}
 			}
 			r.Nontrivial(fmt.Sprintf("chain|%s|%s", a.Name, b.Name))
